@@ -209,6 +209,37 @@ def ta_correspondence(chk, traces, shards=16, scripts=None, guards=False):
     return stats, bad
 
 
+def pins_correspondence(chk, traces, scripts, shards=8):
+    """TA_Pins: the model's runtime-side pins against the cpusets in the cache, for granted containers and for running
+    containers that lost their grant (stale pins, K3). Returns stats."""
+    names = sorted(traces)
+    byname = {s['name']: s for s in scripts}
+    cfgs = {n: [c for c, _ in configs_along(byname[n], traces[n])] for n in names if n in byname}
+    names = [n for n in names if n in cfgs]
+    per = max(1, (len(names) + shards - 1) // shards)
+    files, groups = [], []
+    stats = collections.Counter()
+    for k in range(0, len(names), per):
+        grp = names[k:k + per]
+        p = os.path.join(chk.work, 'cases_pins_%02d.v' % (k // per))
+        st = ta_corr.pins_case_file(p, [(n, traces[n]) for n in grp], cfgs)
+        for s in st.values():
+            stats.update(s)
+        files.append(p)
+        groups.append(grp)
+    for grp, p, (rc, out) in zip(groups, files, coq_eval_many(files, timeout=600)):
+        body = parse_coq_print(out, 'M')
+        if rc != 0 or body is None:
+            chk.corr_broken('TA_Pins/' + os.path.basename(p), 'coqc failed:\n' + out[-1500:])
+            continue
+        for n, it in zip(grp, split_top(body.strip()[1:-1])):
+            if it.strip() != 'None':
+                sc = byname.get(n)
+                chk.corr_broken('TA_Pins:' + n, 'history %s: the cpuset a container is left with differs from the model\'s pin at (segment, event group) %s' % (n, ' '.join(it.split())),
+                                replay={k: v for k, v in replay_of(sc, len(sc['events']) - 1).items() if not k.startswith('_')} if sc else None)
+    return stats
+
+
 def split_top(s):
     """split a Coq list body on top-level ';'"""
     out, depth, cur = [], 0, ''
